@@ -951,6 +951,9 @@ func ToEntry(n Node) (e *Entry) {
 			if a := fv.Interface().([]*Deviate); a != nil {
 				for _, d := range a {
 					de := ToEntry(d)
+					// de is not a child of e: collect its errors (e.g. an
+					// unresolvable replacement type) here.
+					e.importErrors(de)
 
 					dt, ok := toDeviation[d.Statement().Argument]
 					if !ok {
